@@ -3,7 +3,7 @@
 From Coq Require Import String.
 From Coq Require Import ZArith List Bool Lia.
 From Coq Require Import Strings.Byte.
-From Cose Require Import Lib.Base Lib.Cbor Lib.GoSem Lib.GenTypes Model.GoVal Model.CborGo Model.Wire Model.Key Model.MsgLogic Model.Msg Model.HdrSem Gen.LookupGen.
+From Cose Require Import Lib.Base Lib.Cbor Lib.GoSem Lib.GenTypes Model.GoVal Model.CborGo Model.Wire Model.Key Model.MsgLogic Model.Msg Model.MsgProofs Model.HdrSem Gen.LookupGen.
 Import ListNotations.
 Open Scope Z_scope.
 
@@ -272,3 +272,19 @@ Definition ws_sig1_es384 : sigent :=
 Example sign_verify_gate_refuses_example :
   cose_SignMessage_Verify [ws_p1; ws_p2] None ws_wire (Some [ws_sig1_es384]) = Err.
 Proof. vm_compute. reflexivity. Qed.
+
+(* ---------------------------------------------------------------- C02 on the source of SignMessage.Verify *)
+(* acceptance by the regenerated source means that EVERY entry of the signature array (the last one and the earlier ones,
+   repeated ones included) found its verifier by kid, passed the gate, and was accepted by that verifier over the
+   Sig_structure of its own received protected bytes *)
+Theorem gen_sign_verify_every_entry vs ext w sigs :
+  cose_SignMessage_Verify vs ext w (Some sigs) = Ok tt ->
+  sigs <> [] /\
+  Forall (fun s => exists v tbs,
+            lookup_prim vs (get_bytes_ (omap (se_unprot s)) 4) = Some v /\ consume_gate (se_prot s) (sg_key v) = true /\
+            structure KSign (w_prot w) (Some (se_raw s)) ext (w_payload w) = Ok tbs /\
+            sg_verify v tbs (match se_sig s with Some b => b | None => [] end) = true) sigs.
+Proof.
+  rewrite gen_sign_verify. unfold verify_decoded. destruct vs as [|v0 vr]; [discriminate|].
+  destruct sigs as [|s r]; [discriminate|]. intro H. split; [discriminate|]. apply MsgProofs.verify_all_sound, H.
+Qed.
